@@ -8,7 +8,8 @@ Require Import Wbxml.Model.EncWbxml.
 Require Import Wbxml.Model.EncWbxmlTables.
 Require Import Wbxml.Model.XmlFront.
 Require Import Wbxml.Model.ConvXml2Wbxml.
+Require Import Wbxml.Model.XmlFrontLfOld.
 Require Import Wbxml.Gen.TablesData.
 Require Extraction.
 Require Import ExtrOcamlBasic.
-Extraction "model.ml" main_table main_btable xml2wbxml_events tree_from_xml.
+Extraction "model.ml" main_table main_btable xml2wbxml_events tree_from_xml xml2wbxml_events_old.
